@@ -76,6 +76,18 @@ func (v *Verifier) evalCall(fr *Frame, st *State, x *ast.CallExpr) Val {
 			if r, ok := v.ghostBuiltin(fr, st, id.Name, x); ok {
 				return r
 			}
+		case "bigBit": // bigBit(x, i): two's-complement bit i of *big.Int x, as bool
+			v.needIntIdx(x.Pos(), "bigBit")
+			ref, _ := v.bigRef(v.evalSpec(fr, st, x.Args[0]), x.Pos())
+			i := v.toIdx(v.coerce(v.evalSpec(fr, st, x.Args[1]), types.Typ[types.Int]), x.Pos())
+			return Scalar{c.Select(v.bigBits(st, ref), i), types.Typ[types.Bool]}
+		case "isType": // isType(x, T): interface value x holds a T
+			iv := v.evalSpec(fr, st, x.Args[0]).(OpaqueVal)
+			t := v.resolveType(fr, x.Args[1])
+			return Scalar{c.And(c.Not(iv.Nil), c.Eq(v.dynTag(iv.ID), v.typeCode(t))), types.Typ[types.Bool]}
+		case "asType": // asType(x, T): the T held by interface value x
+			iv := v.evalSpec(fr, st, x.Args[0]).(OpaqueVal)
+			return v.dynPayload(iv.ID, v.resolveType(fr, x.Args[1]))
 		case "bits": // bits(x, hi, lo): extract
 			s := v.asScalar(v.evalSpec(fr, st, x.Args[0]), x.Pos())
 			hi := v.constInt(fr, st, x.Args[1])
@@ -405,6 +417,13 @@ func (v *Verifier) evalBuiltin(fr *Frame, st *State, name string, x *ast.CallExp
 		return SliceVal{Sh: sh, Ref: ref, Off: v.idxConst(0), Len: n, Cap: cp}
 	case "new":
 		t := v.typeOf(fr, x.Args[0])
+		if isBigInt(t) {
+			p := v.newBigPtr(st, types.NewPointer(t))
+			if v.eng.IntIdx() {
+				v.setBigBits(st, p.Ref, c.ConstArray(ArraySort(IntSort, BoolSort), c.False()))
+			}
+			return p
+		}
 		sh := v.eng.shapeOf(t)
 		cell := v.eng.newCell("new", sh)
 		st.vals[cell] = v.eng.zeroVal(sh)
@@ -617,12 +636,25 @@ func (v *Verifier) doCall(fr *Frame, st *State, fn *types.Func, recv Val, args [
 		return v.ufResult("spec$"+fn.Pkg().Name()+"."+fn.Name(), fn.Type().(*types.Signature).Results(), ts)
 	case con != nil && !con.Inline:
 		return v.callByContract(fr, st, fn, fi, con, recv, args, x)
-	case fi != nil && fi.Decl.Body != nil:
+	case fi != nil && fi.Decl.Body != nil && fi.Pkg.Module != nil && fi.Pkg.Module.Main:
 		if fr.inSpec && !(con != nil && con.Inline) && !isPureName(fn) {
 			// contract expressions may call small pure repo functions; they are inlined
 		}
 		v.noteInlined(full)
 		return v.execInline(fr, st, fi, recv, args, x)
+	}
+	if fn.Pkg() != nil && purePackages[fn.Pkg().Path()] {
+		// external function from a package of pure helpers: an uninterpreted function of its arguments
+		v.intrinsicsUsed[full+" (external, modelled as a pure uninterpreted function of its arguments)"] = true
+		var ts []*Term
+		if recv != nil {
+			ts = append(ts, v.flattenArg(st, recv, x.Pos())...)
+		}
+		for _, a := range args {
+			ts = append(ts, v.flattenArg(st, a, x.Pos())...)
+		}
+		res := v.ufResult("ext$"+sanitize(full), fn.Type().(*types.Signature).Results(), ts)
+		return res
 	}
 	panic(unsupportedf(x.Pos(), "call of %s: no contract, no body, no intrinsic", full))
 }
@@ -811,10 +843,31 @@ func (v *Verifier) callByContract(fr *Frame, st *State, fn *types.Func, fi *Func
 	v.havocModifies(cf, st, pre, con, x.Pos())
 	// results
 	var res []Val
+	var pureRes []Val
+	if con.Pure {
+		// a pure function is a (deterministic) function of its arguments and the heap they reach
+		var ts []*Term
+		if recv != nil {
+			ts = append(ts, v.flattenArg(pre, recv, x.Pos())...)
+		}
+		for _, a := range args {
+			ts = append(ts, v.flattenArg(pre, a, x.Pos())...)
+		}
+		switch pr := v.ufResult("pure$"+sanitize(full), sig.Results(), ts).(type) {
+		case TupleVal:
+			pureRes = pr.Vs
+		default:
+			pureRes = []Val{pr}
+		}
+	}
 	for i := 0; i < sig.Results().Len(); i++ {
 		r := sig.Results().At(i)
 		var wf []*Term
 		val := v.eng.freshVal(v.eng.shapeOf(r.Type()), "r$"+fn.Name(), &wf)
+		if pureRes != nil {
+			val = pureRes[i]
+			v.eng.wellFormed(val, &wf, false)
+		}
 		for _, w := range wf {
 			st.assume(w)
 		}
@@ -888,6 +941,8 @@ func (v *Verifier) resolveModTarget(cf *Frame, st *State, m ast.Expr, pos token.
 				keys = []string{gRdPos}
 			case "atomic":
 				keys = []string{gAtomic}
+			case "big":
+				keys = []string{gBigBits}
 			}
 			if keys != nil {
 				val := v.eval(cf, st, ce.Args[0])
@@ -1147,3 +1202,6 @@ func exprString(e ast.Expr) string {
 	printer.Fprint(&sb, token.NewFileSet(), e)
 	return sb.String()
 }
+
+// purePackages: external packages whose functions are modelled as pure uninterpreted functions.
+var purePackages = map[string]bool{"strings": true, "strconv": true, "reflect": true, "unicode": true, "unicode/utf8": true, "math": true}
